@@ -281,7 +281,7 @@ def _run_phase(case, env, obj, out, dig):
             st, lib_acc, ticks = call(env, pa.pda_accepts_word, obj, w, budget=pb)
             if not record(st, lib_acc, ticks, 'pda_accepts_word', w):
                 continue
-            st, val, ticks = call(env, pa.pda_simulate_word, obj, w, budget=100_000 + 6 * ticks)
+            st, val, ticks = call(env, pa.pda_simulate_word, obj, w, budget=300_000 + 12 * ticks)
             if not record(st, val, ticks, 'pda_simulate_word', w):
                 continue
             rows = _plain_rows(val)
